@@ -22,7 +22,10 @@ RULE = ("run: real multi-threaded Bencher runs (threads T in {2,3,4,8}, sample_c
         "allocate in its timed section (only the last thread, all but thread 0, none, random, different per round), and "
         "per-thread behaviours (allocate, allocate+free, free-only from a pool pre-filled on another thread, shrink-only on "
         "pre-grown vectors, nothing) over >= 3 rounds; the full tally (alloc, dealloc, grow, shrink counts and bytes) of every "
-        "recorded sample is compared. panic: T in {2,3}, a panic injected at every "
+        "recorded sample is compared. tune: T in {2,3}, no sample_size, every call costs 60/30/13 virtual ticks "
+        "at a precision of 1 tick so that tuning takes 2/3/4 rounds (sizes 1, 2, 4, ...; call budget as watchdog), same jitter; the "
+        "per-round sizes are read off the log (history-driven) and replay, log_sb and the recorded samples (from the round that ends "
+        "tuning on) are checked with them. panic: T in {2,3}, a panic injected at every "
         "(thread, phase in {first/last generator call, first/last benchmarked call, first output drop, first input "
         "drop}) in round 0 or 1, plus two-thread and all-thread panics, each under a watchdog (outcome `hang`). "
         "Non-trivial = the model accepted the whole log and the run had >= 2 threads; distinct by case line. "
@@ -39,7 +42,7 @@ ASSUMPTIONS = [
     "every barrier wait is logged, the guard's waits while unwinding included (hook H5, a = 3): the replay matches every model step "
     "that touches the barrier one to one with a logged event in the global order; silent steps are only the end of the guard's "
     "drop, the return from record_sample, join and start of a round",
-    "log_sb (the monitor evaluated on observed logs) is proved to accept every model execution for a fixed sample size per run (C08_log_sb_model)",
+    "log_sb (the monitor evaluated on observed logs) is proved to accept every model execution, for arbitrary per-round sample sizes (C08_log_sb_model)",
 ]
 TRUSTED = [
     "real-thread schedules are sampled (jitter), not enumerated; all interleavings are covered by the Coq theorems over the model",
@@ -49,10 +52,13 @@ CONSTS_USED = ['barrier_wait_count']
 SHAPES = [("00", "z"), ("00", "v"), ("10", "z"), ("10", "v"), ("01", "z"), ("01", "r"), ("11", "z"), ("11", "r")]
 
 
-def case_line(T, S, n, sh, path, seed, jit, slow=0, skipext=0, fault="none", hang_ms=4000, test=0, mask=""):
+def case_line(T, S, n, sh, path, seed, jit, slow=0, skipext=0, fault="none", hang_ms=4000, test=0, mask="", tune=0, cost=0):
     R = (S + T - 1) // T
     if test:  # Action::Test: one round, one call per thread, whatever the options say
         R, n = 1, 1
+    if tune:  # no sample_size: rounds and sizes are what the loop chooses; the driver reads them off the log
+        return (f"T={T} S={S} R=0 n=1 sh={sh} path={path} seed={seed} jit={jit} slow={slow} "
+                f"skipext={skipext} hang_ms={hang_ms} test=0 tune=1 cost={cost} fault=none")
     return (f"T={T} S={S} R={R} n={n} sh={sh} path={path} seed={seed} jit={jit} slow={slow} "
             f"skipext={skipext} hang_ms={hang_ms} test={test}" + (f" mask={mask}" if mask else "") + f" fault={fault}")
 
@@ -132,6 +138,8 @@ def hist_of(cases):
         k = "mask=" + ("all-allocate" if not m else "free/shrink-only-threads" if ("f" in m or "s" in m) else
                        "per-round" if "," in m else "none" if "1" not in m and "b" not in m else "subset")
         h[k] = h.get(k, 0) + 1
+        if d.get("tune") == "1":
+            h["cost=" + d.get("cost", "?")] = h.get("cost=" + d.get("cost", "?"), 0) + 1
         for key in ("T", "n", "sh", "path", "jit", "R"):
             k = f"{key}={d.get(key)}"
             h[k] = h.get(k, 0) + 1
@@ -218,6 +226,17 @@ def streams(tier, rng):
             pan.append(case_line(T, S, n, sh, path, rng.getrandbits(32), rng.choice([0, 1, 2, 3, 4]),
                                  slow=rng.randrange(T), fault=",".join(sorted(set(fs)))))
 
+    # ---- tuned runs: no sample_size; sizes 1, 2, 4, ... until a sample outlasts 100 x precision -----------
+    tune = [c for c in corpus if "tune=1" in c]
+    run = [c for c in run if "tune=1" not in c]
+    for T in (2, 3):
+        for cost in (60, 30, 13):          # tuning takes 2, 3, 4 rounds
+            for jit in (2, 4, 3, 1):       # slow thread in its generator / its drops / its calls; random jitter
+                for _ in range(2 if quick else 12):
+                    sh, path = rng.choice(SHAPES if jit != 4 else [x for x in SHAPES if x[0] != "00"])
+                    tune.append(case_line(T, T * rng.choice([1, 2, 3]), 1, sh, path, rng.getrandbits(32), jit,
+                                          slow=rng.randrange(T), skipext=rng.randrange(2), tune=1, cost=cost))
+
     mi = lambda case, impl: case + "\t" + impl
     nt = lambda c, m: (m.startswith("ok ") or m.startswith("panic ")) and "REJECT" not in m
     return [
@@ -227,6 +246,10 @@ def streams(tier, rng):
         Stream("round-panic", "run", pan, nontrivial=nt, model_input=mi, impl_runner=parallel_runner(6),
                impl_timeout=900, hist=hist_of(pan),
                describe="panic injected at (thread, round, phase); expected: caller panics for the least faulting thread; hang = failure"),
+        Stream("round-tune", "run", tune, nontrivial=nt, model_input=mi, impl_runner=parallel_runner(3),
+               impl_timeout=900, hist=hist_of(tune),
+               describe="no sample_size: tuning rounds of sizes 1, 2, 4, ... (2-4 of them) then collecting; per-round sizes read "
+                        "off the log; replay, log_sb with per-round sizes, recorded allocation info from the round that ends tuning"),
     ]
 
 
